@@ -311,9 +311,17 @@ func (w *World) obsRegionCleanTo(u *Unit, o types.Object, def ast.Expr, only *fl
 		return hit
 	}
 	reads := w.readFieldsOfExpr(u, def)
+	// value-owned roots: every variable the definition mentions is a struct/array/basic-typed local or parameter that
+	// is read inside its own storage (no pointer, map or slice on the way) and whose address goes nowhere but into calls
+	// that only read through it. Such storage changes by assignments in this function only: channel operations and
+	// calls that get copies of its parts do not matter.
+	owned := w.valueOwned(u, def, roots)
 	var muts []*flow.Site
 	for _, s := range u.Sites {
 		if s == D || s.Deferred {
+			continue
+		}
+		if owned && s.Kind != flow.SStore {
 			continue
 		}
 		switch s.Kind {
@@ -711,4 +719,238 @@ func plainValue(t types.Type) bool {
 		return true
 	}
 	return false
+}
+
+// valueOwned: see its use in obsRegionCleanTo.
+func (w *World) valueOwned(u *Unit, def ast.Expr, roots map[types.Object]bool) bool {
+	info := u.Info()
+	if len(roots) == 0 {
+		return false
+	}
+	for r := range roots {
+		switch r.Type().Underlying().(type) {
+		case *types.Struct, *types.Array, *types.Basic:
+		default:
+			return false
+		}
+	}
+	// the definition reads inside the roots' own storage only
+	ok := true
+	var inside func(e ast.Expr) bool
+	inside = func(e ast.Expr) bool {
+		switch x := ast.Unparen(e).(type) {
+		case *ast.Ident:
+			return true
+		case *ast.SelectorExpr:
+			if sel := info.Selections[x]; sel != nil && sel.Kind() == types.FieldVal {
+				if t := info.TypeOf(x.X); t != nil {
+					if _, isPtr := t.Underlying().(*types.Pointer); isPtr {
+						return false
+					}
+				}
+				return inside(x.X)
+			}
+			return false
+		case *ast.IndexExpr:
+			if t := info.TypeOf(x.X); t != nil {
+				if _, isArr := t.Underlying().(*types.Array); isArr {
+					return inside(x.X)
+				}
+			}
+			return false
+		}
+		return false
+	}
+	ast.Inspect(def, func(n ast.Node) bool {
+		switch x := n.(type) {
+		case *ast.SelectorExpr:
+			if sel := info.Selections[x]; sel != nil && sel.Kind() == types.FieldVal {
+				if root, _ := u.C.RootVar(x); root != nil && roots[root] && !inside(x) {
+					ok = false
+				}
+				return false
+			}
+		case *ast.IndexExpr:
+			if root, _ := u.C.RootVar(x); root != nil && roots[root] && !inside(x) {
+				ok = false
+			}
+		}
+		return ok
+	})
+	if !ok {
+		return false
+	}
+	// the address of a root (or of a part of it) is taken only as an argument of a call that only reads through the
+	// corresponding parameter; no closure mentions a root
+	var stack []ast.Node
+	ast.Inspect(u.Body, func(n ast.Node) bool {
+		if n == nil {
+			stack = stack[:len(stack)-1]
+			return true
+		}
+		stack = append(stack, n)
+		switch x := n.(type) {
+		case *ast.FuncLit:
+			ast.Inspect(x.Body, func(m ast.Node) bool {
+				if id, isId := m.(*ast.Ident); isId && roots[info.ObjectOf(id)] {
+					ok = false
+				}
+				return ok
+			})
+		case *ast.UnaryExpr:
+			if x.Op != token.AND {
+				return true
+			}
+			root, _ := u.C.RootVar(x.X)
+			if root == nil || !roots[root] {
+				return true
+			}
+			// parent must be a call with this expression as an argument
+			safe := false
+			if len(stack) >= 2 {
+				if call, isCall := stack[len(stack)-2].(*ast.CallExpr); isCall {
+					for i, a := range call.Args {
+						if a == ast.Expr(x) {
+							if callee, isF := typeutil.Callee(info, call).(*types.Func); isF && w.ptrParamReadOnly(callee, i, 0) {
+								safe = true
+							}
+						}
+					}
+				}
+			}
+			if !safe {
+				ok = false
+			}
+		}
+		return ok
+	})
+	return ok
+}
+
+// ptrParamReadOnly: the function only reads through its i-th (pointer) parameter: every use of the parameter is the
+// base of a field selection that is read (never assigned, never address-taken), or an argument of a call for which the
+// same holds; it is not stored, sent, captured or returned.
+func (w *World) ptrParamReadOnly(f *types.Func, i int, depth int) bool {
+	src := w.P.FuncOf(f)
+	if src == nil || src.Decl.Body == nil || depth > 3 {
+		return false
+	}
+	sig := f.Type().(*types.Signature)
+	if i >= sig.Params().Len() {
+		return false
+	}
+	param := sig.Params().At(i)
+	info := src.Pkg.TypesInfo
+	ok := true
+	var stack []ast.Node
+	ast.Inspect(src.Decl.Body, func(n ast.Node) bool {
+		if n == nil {
+			stack = stack[:len(stack)-1]
+			return true
+		}
+		stack = append(stack, n)
+		id, isId := n.(*ast.Ident)
+		if !isId || info.ObjectOf(id) != types.Object(param) {
+			return ok
+		}
+		if len(stack) < 2 {
+			ok = false
+			return false
+		}
+		// inside a function literal?
+		for _, p := range stack {
+			if _, isLit := p.(*ast.FuncLit); isLit {
+				ok = false
+				return false
+			}
+		}
+		// climb the selector chain p.a.b
+		j := len(stack) - 2
+		var top ast.Node = id
+		for j >= 0 {
+			if sel, isSel := stack[j].(*ast.SelectorExpr); isSel && sel.X == top.(ast.Expr) {
+				top = sel
+				j--
+				continue
+			}
+			break
+		}
+		if top == ast.Node(id) {
+			// the pointer itself is used: allowed only as an argument of a call that is read-only through it, or in
+			// a nil comparison
+			if j >= 0 {
+				switch px := stack[j].(type) {
+				case *ast.CallExpr:
+					for k, a := range px.Args {
+						if a == ast.Expr(id) {
+							if callee, isF := typeutil.Callee(info, px).(*types.Func); isF && w.ptrParamReadOnly(callee, k, depth+1) {
+								return ok
+							}
+						}
+					}
+				case *ast.BinaryExpr:
+					if px.Op == token.EQL || px.Op == token.NEQ {
+						return ok
+					}
+				case *ast.StarExpr:
+					// *p read as a value: fine unless assigned
+					if j >= 1 {
+						if as, isAs := stack[j-1].(*ast.AssignStmt); isAs {
+							for _, l := range as.Lhs {
+								if l == ast.Expr(px) {
+									ok = false
+								}
+							}
+						}
+					}
+					return ok
+				}
+			}
+			ok = false
+			return false
+		}
+		// p.a.b…: must not be assigned, incremented or address-taken
+		if j >= 0 {
+			switch px := stack[j].(type) {
+			case *ast.AssignStmt:
+				for _, l := range px.Lhs {
+					if l == top.(ast.Expr) {
+						ok = false
+					}
+				}
+			case *ast.IncDecStmt:
+				ok = false
+			case *ast.UnaryExpr:
+				if px.Op == token.AND {
+					ok = false
+				}
+			case *ast.IndexExpr:
+				// p.a[i] = v?
+				if px.X == top.(ast.Expr) && j >= 1 {
+					if as, isAs := stack[j-1].(*ast.AssignStmt); isAs {
+						for _, l := range as.Lhs {
+							if l == ast.Expr(px) {
+								ok = false
+							}
+						}
+					}
+				}
+			case *ast.CallExpr:
+				// a method call on a field of the struct: p.a.M(): pointer-receiver methods may change p.a
+				if sel, isSel := px.Fun.(*ast.SelectorExpr); isSel && sel == top {
+					if s := info.Selections[sel]; s != nil && s.Kind() == types.MethodVal {
+						if msig, isSig := s.Obj().Type().(*types.Signature); isSig && msig.Recv() != nil {
+							if _, ptrRecv := msig.Recv().Type().(*types.Pointer); ptrRecv {
+								if mf, isF := s.Obj().(*types.Func); !isF || !w.observer(mf, 0) {
+									ok = false
+								}
+							}
+						}
+					}
+				}
+			}
+		}
+		return ok
+	})
+	return ok
 }
